@@ -49,6 +49,7 @@ type LoopSpec struct {
 }
 
 type Contract struct {
+	Captures                        [][2]string // name, callee#n
 	ReplayAssume                    []*Clause
 	IfaceOf                         *Contract // implementation checked against this interface contract
 	SelfType                        string
@@ -85,7 +86,7 @@ type ContractSet struct {
 	Scan        []string // occurrences of assume/trusted/axiom for the evidence
 }
 
-var clauseRe = regexp.MustCompile(`^(requires|ensures_panic|ensures|assigns|safe|pure|trusted|inline|uninterpreted|overflow-checked|wrap64|nopanic|sweep-callers|ghost|props|replay_assume|replay|observe)\b\s*(.*)$`)
+var clauseRe = regexp.MustCompile(`^(requires|ensures_panic|ensures|assigns|safe|pure|trusted|inline|uninterpreted|overflow-checked|wrap64|nopanic|sweep-callers|ghost|capture|props|replay_assume|replay|observe)\b\s*(.*)$`)
 var labelRe = regexp.MustCompile(`\s+\[([A-Za-z0-9_:.#+\-]+)\]\s*$`)
 
 // parseContractFile reads one contract file.
@@ -220,6 +221,19 @@ func parseContractFile(cs *ContractSet, path, pkgDir string) {
 				}
 			case "ghost":
 				cur.Ghost = append(cur.Ghost, parseParams(m[2])...)
+			case "capture":
+				// capture <name> <type> = <callee>#<n> : names the result of the n-th call to callee
+				eq := strings.Index(m[2], "=")
+				ps := []Param{}
+				if eq > 0 {
+					ps = parseParams(strings.TrimSpace(m[2][:eq]))
+				}
+				if len(ps) != 1 {
+					cs.Errors = append(cs.Errors, fmt.Sprintf("%s:%d: bad capture clause", path, ln+1))
+					continue
+				}
+				cur.Ghost = append(cur.Ghost, ps[0])
+				cur.Captures = append(cur.Captures, [2]string{ps[0].Name, strings.TrimSpace(m[2][eq+1:])})
 			case "props":
 				cur.Props = append(cur.Props, strings.Fields(m[2])...)
 			case "replay":
@@ -610,8 +624,8 @@ func (cs *ContractSet) genOverlay(sp *srcPkg, contracts []*Contract, axioms []*C
 			continue
 		}
 		base := append([]Param{}, c.Params...)
-		base = append(base, c.Ghost...)
-		withRes := append(append([]Param{}, base...), c.Results...)
+		withGhost := append(append([]Param{}, base...), c.Ghost...)
+		withRes := append(append([]Param{}, withGhost...), c.Results...)
 		do := func(cl *Clause, params []Param) {
 			if err := normalizeClause(cl); err != nil {
 				c.Errors = append(c.Errors, fmt.Sprintf("%s:%d: %v", cl.File, cl.Line, err))
@@ -631,7 +645,7 @@ func (cs *ContractSet) genOverlay(sp *srcPkg, contracts []*Contract, axioms []*C
 			do(cl, withRes)
 		}
 		for _, cl := range c.EnsuresPanic {
-			do(cl, append(append([]Param{}, base...), Param{"panicValue", "interface{}"}))
+			do(cl, append(append([]Param{}, withGhost...), Param{"panicValue", "interface{}"}))
 		}
 		var loopNs []int
 		for k := range c.Loops {
